@@ -5,6 +5,8 @@
 
 package ng_operand
 
+import "github.com/HobbyOSs/gosk/internal/ast"
+
 func forall(lo, hi int, p func(k int) bool) bool {
 	for k := lo; k < hi; k++ {
 		if !p(k) {
@@ -81,7 +83,7 @@ func SpecAddrSize(m *MemoryInfo, mode int) int {
 	case (bn || specIsAddr32(m.BaseReg)) && (in || specIsAddr32(m.IndexReg) && m.IndexReg != "ESP"):
 		return 32
 	case (m.BaseReg == "BX" || m.BaseReg == "BP") && (in || m.IndexReg == "SI" || m.IndexReg == "DI") && (m.Scale == 0 || m.Scale == 1),
-		bn && (m.IndexReg == "SI" || m.IndexReg == "DI" || m.IndexReg == "BX" || m.IndexReg == "BP") && (m.Scale == 0 || m.Scale == 1),
+		bn && (m.IndexReg == "SI" || m.IndexReg == "DI") && (m.Scale == 0 || m.Scale == 1),
 		(m.BaseReg == "SI" || m.BaseReg == "DI") && in:
 		return 16
 	}
@@ -103,7 +105,7 @@ func SpecDispBytes(m *MemoryInfo, mode int) int {
 		return 4 // index without base: SIB with base=101, mod=00
 	case m.Displacement == 0 && asz == 32 && m.BaseReg != "EBP":
 		return 0
-	case m.Displacement == 0 && asz == 16 && !((m.BaseReg == "BP" && m.IndexReg == "") || (m.BaseReg == "" && m.IndexReg == "BP")):
+	case m.Displacement == 0 && asz == 16 && !(m.BaseReg == "BP" && m.IndexReg == ""):
 		return 0
 	case fits8:
 		return 1
@@ -154,3 +156,86 @@ func specFirstMem(o *OperandPegImpl) *MemoryInfo {
 //@ props C01 C13
 //@ option trusted
 //@ ensures[nonnil] result1 == nil ==> result0 != nil
+
+// ---------------------------------------------------------------------------
+// Prefixes (SDM Vol. 2, 2.1.1): 67h is needed exactly when a memory operand is addressed with
+// registers of the other address size; 66h exactly when the operand size (given by a register
+// operand or an explicit BYTE/WORD/DWORD) is the non-default 16/32-bit size of the mode.
+// ---------------------------------------------------------------------------
+
+// specMem67: operand p is a memory operand whose address registers have the other width.
+func specMem67(p *ParsedOperandPeg, mode int) bool {
+	return p != nil && p.Memory != nil && SpecAddrSize(p.Memory, mode) != mode
+}
+
+// specMemsValid (assumption A2): memory operands use registers that can form an address.
+func specMemsValid(o *OperandPegImpl) bool {
+	return forall(0, len(o.parsedOperands), func(k int) bool {
+		p := o.parsedOperands[k]
+		return p == nil || p.Memory == nil || SpecAddrSize(p.Memory, int(o.bitMode)) != 0
+	})
+}
+
+//@ func (*OperandPegImpl).Require67h
+//@ props C01 C13
+//@ requires o != nil
+//@ requires[A13] o.bitMode == 16 || o.bitMode == 32
+//@ requires[A2] specMemsValid(o)
+//@ loop 0 invariant[none] forall(0, iter, func(j int) bool { return !specMem67(o.parsedOperands[j], int(o.bitMode)) })
+//@ ensures[prefix] result0 == exists(0, len(o.parsedOperands), func(j int) bool { return specMem67(o.parsedOperands[j], int(o.bitMode)) })
+
+// specSized: the operand size an operand fixes by itself: a register operand or a memory operand
+// with an explicit BYTE/WORD/DWORD; 0 for immediates, labels and unsized memory operands (their
+// size follows from the other operand or the mode).
+func specSized(p *ParsedOperandPeg) int {
+	switch {
+	case p == nil:
+		return 0
+	case isR8Type(p.Type) || p.Type == CodeM && p.DataType == ast.Byte:
+		return 8
+	case isR16Type(p.Type) || p.Type == CodeM && p.DataType == ast.Word:
+		return 16
+	case isR32Type(p.Type) || p.Type == CodeM && p.DataType == ast.Dword || isCREGType(p.Type):
+		return 32
+	}
+	return 0
+}
+
+// specOp66: this operand makes the operation use the non-default 16/32-bit operand size.
+func specOp66(p *ParsedOperandPeg, mode int) bool {
+	return mode == 32 && specSized(p) == 16 || mode == 16 && specSized(p) == 32
+}
+
+// specCode66: what the implementation looks at per operand (used only as loop invariant).
+func specCode66(p *ParsedOperandPeg, mode int) bool {
+	return specOp66(p, mode) || specImm66(p, mode) || specUnsizedMem66(p, mode)
+}
+
+func specIsImm(p *ParsedOperandPeg) bool {
+	return p != nil && (p.Type == CodeIMM || p.Type == CodeIMM8 || p.Type == CodeIMM16 || p.Type == CodeIMM32 || p.Type == CodeIMM64)
+}
+
+// specImm66: an immediate whose magnitude class is the other 16/32-bit size.
+func specImm66(p *ParsedOperandPeg, mode int) bool {
+	if !specIsImm(p) || specSized(p) != 0 {
+		return false
+	}
+	c := getImmediateSizeType(p.Immediate)
+	return mode == 32 && c == CodeIMM16 || mode == 16 && c == CodeIMM32
+}
+
+// specUnsizedMem66: a memory operand without size whose address registers have the other width.
+func specUnsizedMem66(p *ParsedOperandPeg, mode int) bool {
+	if p == nil || specSized(p) != 0 || specIsImm(p) || p.Type != CodeM || p.Memory == nil {
+		return false
+	}
+	return SpecAddrSize(p.Memory, mode) != mode
+}
+
+//@ func (*OperandPegImpl).Require66h
+//@ props C01 C13
+//@ requires o != nil
+//@ requires[A13] o.bitMode == 16 || o.bitMode == 32
+//@ requires[A2] specMemsValid(o)
+//@ loop 0 invariant[none] forall(0, iter, func(j int) bool { return !specCode66(o.parsedOperands[j], int(o.bitMode)) })
+//@ ensures[prefix] result0 == exists(0, len(o.parsedOperands), func(j int) bool { return specOp66(o.parsedOperands[j], int(o.bitMode)) })
